@@ -3,4 +3,9 @@ let () =
   | [| _; "c16" |] -> Drv_c16.run stdin stdout
   | [| _; "c08" |] -> Drv_c08.run stdin stdout
   | [| _; "c09" |] -> Drv_c09.run stdin stdout
+  | [| _; "c15" |] -> Drv_c15.run stdin stdout
+  | [| _; "c17" |] -> Drv_c17.run stdin stdout
+  | [| _; "c10" |] -> Drv_c10.run stdin stdout
+  | [| _; "c12" |] -> Drv_c12.run stdin stdout
+  | [| _; "c11" |] -> Drv_c11.run stdin stdout
   | _ -> prerr_endline "usage: driver <model>  (script on stdin)"; exit 2
